@@ -39,10 +39,10 @@ type Ctx struct {
 	siteMemo       map[*ssa.Function]ssa.CallInstruction
 	nilTestMemo    map[*ssa.Function]map[ssa.Value]int
 	anchorHint     *ssa.Function // the function a rule enumerated last (context for helpers shared by several callers)
-	inHint      bool
-	noImports   bool
-	alias       map[*ssa.Function]string // renamed function → its name in the pinned tree
-	Renamed     []string
+	inHint         bool
+	noImports      bool
+	alias          map[*ssa.Function]string // renamed function → its name in the pinned tree
+	Renamed        []string
 	nonNegMemo     map[*types.Var]int
 	calledOnlyMemo map[*ssa.Function]bool
 	siteDone       map[*ssa.Function]bool
